@@ -771,19 +771,21 @@ fn handle_proposal_payload_bad(bad: u8) {
         vwit::assume(wrong != qc.digest());
         qc.votes[1].1 = sig(2, &wrong);
     }
-    let mut b = Block { qc, tc: None, author: key(3), round: 7, payload: vec![batch.clone()], signature: Signature::default() };
+    // bad == 3: everything valid and correctly signed, but by member 2, who does not lead round 7 (seeded change C09-5)
+    let author: u8 = if bad == 3 { 2 } else { 3 };
+    let mut b = Block { qc, tc: None, author: key(author), round: 7, payload: vec![batch.clone()], signature: Signature::default() };
     let bd = b.digest();
     vwit::assume(bd != d0 && bd != d1 && bd != batch);
     b.signature = if bad == 1 {
         let wrong = any_digest();
         vwit::assume(wrong != bd);
-        sig(3, &wrong)
+        sig(author, &wrong)
     } else {
-        sig(3, &bd)
+        sig(author, &bd)
     };
     let s0 = snap(&env);
     let res = run_ready(env.core.handle_proposal(&b));
-    assert!(res.is_err(), "C04/C05 invalid proposal with a missing batch not rejected (parked unverified: it re-enters through the trusted loop-back path)");
+    assert!(res.is_err(), "C04/C05/C09 invalid or wrong-leader proposal with a missing batch not rejected (parked unverified: it re-enters through the trusted loop-back path)");
     assert!(env.pw.len() == 0, "C05 unverified block parked at the payload waiter: it re-enters through the trusted loop-back path");
     assert_untouched(&env, &s0, 0);
     vwit::cover!(s0.lv < 7 && s0.hq == 5);
@@ -799,3 +801,7 @@ fn hp_bad_sig_payload_missing() { handle_proposal_payload_bad(1) }
 #[kani::unwind(12)]
 #[kani::stub(std::fmt::format, stub_format)]
 fn hp_bad_qc_payload_missing() { handle_proposal_payload_bad(2) }
+#[kani::proof]
+#[kani::unwind(12)]
+#[kani::stub(std::fmt::format, stub_format)]
+fn hp_wrong_leader_payload_missing() { handle_proposal_payload_bad(3) }
